@@ -28,7 +28,7 @@ func histories(t *testing.T, shard int) {
 	defer run.Done()
 	run.Rule("histories of 30 ops on a mini node (capacity 10..22 chunks) over families of overlapping files: identical blocks shared between files, one file being a chunk-aligned prefix of another, repeated blocks inside a file; files are uploaded, uploaded pinned, cached from a source node, deleted through DELETE /aurora/{ref} and evicted by collection runs; after every delete / eviction every other file that was locally complete is read back from the local store only (manifest + joiner) and compared byte for byte, and chunks used only by the removed file (and not pinned) must be gone; distinct = (relation kinds among files, removal kinds, #removals)",
 		"'locally known' files are those uploaded or cached on the node and not deleted or evicted since",
-		"a file counts as evicted when its entry left the cache index during a collection run")
+		"a file counts as evicted by a collection run when its root chunk was stored before the eviction and is gone afterwards")
 	n := run.N(80, 800)
 	for i := shard; i < n; i += 4 {
 		c := run.Begin(fmt.Sprintf("hist/%d", i), nil)
@@ -136,7 +136,9 @@ func histories(t *testing.T, shard int) {
 					}
 					usedElsewhere := false
 					for gi, g := range files {
-						if gi != fi && !removed[gi] && known[gi] && g.Chunks[ch] {
+						// another file uses the chunk if the node knows that file at all: it is in the
+						// model, or at least its root chunk is stored (e.g. a partial retrieval)
+						if gi != fi && !removed[gi] && g.Chunks[ch] && (known[gi] || after.Present[g.Root.String()]) {
 							usedElsewhere = true
 						}
 					}
@@ -154,7 +156,11 @@ func histories(t *testing.T, shard int) {
 		for k := 0; k < 30; k++ {
 			fi := rng.Intn(len(files))
 			f := files[fi]
-			switch x := rng.Intn(12); {
+			x := rng.Intn(12)
+			if s0, _ := fsim.Dump(w.N); s0.GCSize > s0.Target && rng.Intn(2) == 0 {
+				x = 11 // a collection is due: collection branch
+			}
+			switch {
 			case x < 3:
 				pin := rng.Intn(4) == 0
 				hist = append(hist, opRec{Op: "upload", File: fi, Arg: fmt.Sprint("pin=", pin)})
@@ -201,15 +207,76 @@ func histories(t *testing.T, shard int) {
 				}
 			default:
 				before, _ := fsim.Dump(w.N)
+				if before.GCSize > before.Target && rng.Intn(3) > 0 {
+					// a collection run parked inside the run while another file (likely sharing
+					// chunks with the file being evicted) is uploaded or cached
+					point := []string{"selected", "candidate"}[rng.Intn(2)]
+					gi := rng.Intn(len(files))
+					how := []string{"upload", "cache"}[rng.Intn(2)]
+					hist = append(hist, opRec{Op: "collect-parked-" + point, File: gi, Arg: how})
+					var midDump *fsim.State
+					parked := fsim.ParkedCollect(w.N, point, func() {
+						var err error
+						if how == "upload" {
+							err = w.Upload(files[gi], false)
+						} else {
+							idx := make([]int, len(files[gi].Leaves))
+							for j := range idx {
+								idx[j] = j
+							}
+							err = w.CacheChunks(files[gi], idx)
+						}
+						midDump, _ = fsim.Dump(w.N)
+						if err == nil && midDump != nil && files[gi].Complete(midDump) {
+							known[gi] = true
+						}
+					}, func(msg string) { t.Fatal(msg + " (inconclusive)") })
+					after, _ := fsim.Dump(w.N)
+					// a file counts as evicted by this run when its root chunk was stored when the
+					// eviction started and is gone afterwards
+					ref := midDump
+					if ref == nil {
+						ref = before
+					}
+					removed := map[int]bool{}
+					for hi, h := range files {
+						if ref.Present[h.Root.String()] && !after.Present[h.Root.String()] {
+							removed[hi] = true
+						}
+					}
+					hist[len(hist)-1].Note = fmt.Sprintf("parked=%v evicted=%v", parked, keys(removed))
+					if parked {
+						run.Stat("parked_collections", 1)
+					}
+					if len(removed) > 0 {
+						// state as it was when the eviction started: a real dump taken while parked
+						mid := midDump
+						if mid == nil {
+							mid = before
+						}
+						// a file that had a cache entry before the run may itself be among the run's
+						// candidates: storing it again during the run does not make it "another
+						// file" (its own eviction is legitimate), so it is left out of clause (1)
+						_, wasCandidate := before.GC[files[gi].Root.String()]
+						keep := known[gi]
+						if wasCandidate {
+							known[gi] = false
+						}
+						judge("eviction-during-"+how, mid, after, removed)
+						known[gi] = keep && files[gi].Complete(after)
+						for hi := range removed {
+							known[hi] = false
+						}
+					}
+					continue
+				}
 				hist = append(hist, opRec{Op: "collect", File: -1})
 				rounds, done, _, _ := fsim.Collect(w.N, 12)
 				after, _ := fsim.Dump(w.N)
 				removed := map[int]bool{}
 				for gi, g := range files {
-					if _, was := before.GC[g.Root.String()]; was {
-						if _, still := after.GC[g.Root.String()]; !still {
-							removed[gi] = true
-						}
+					if before.Present[g.Root.String()] && !after.Present[g.Root.String()] {
+						removed[gi] = true
 					}
 				}
 				hist[len(hist)-1].Note = fmt.Sprintf("rounds=%d done=%v evicted=%v", rounds, done, keys(removed))
